@@ -200,8 +200,8 @@ PROPS.update({
     "C04": {
         "title": "Text diffs reconstruct both inputs byte-for-byte for every tokenizer",
         "module": "SimilarVerif.Props.C04",
-        "suites": ["text"],
-        "rule": "text: 5 tokenizers x str/bytes x 3 algorithms over an exhaustive small text space (pieces with LF, CRLF, CR, no terminator, multi-byte, spaces), random texts (bytes: invalid UTF-8) and near-identical texts around the 100-token switch; validator: reassembly of both texts from iter_all_changes and from per-op iter_changes, index discipline; non-trivial = a change and an equal",
+        "suites": ["text", "identify"],
+        "rule": "text: 5 tokenizers x str/bytes x 3 algorithms over an exhaustive small text space (pieces with LF, CRLF, CR, no terminator, multi-byte, spaces), random texts (bytes: invalid UTF-8) and near-identical texts around the 100-token switch; validator: reassembly of both texts from iter_all_changes and from per-op iter_changes, index discipline; non-trivial = a change and an equal; identify: the integer mapping used above 100 tokens (IdentifyDistinct) on all sub-range pairs of small sequences and random pairs, with four kinds of hashing -- a text diff above 100 tokens reports Equal exactly where this mapping gives equal numbers",
         "theorem_status": "full as a composition: any valid op list over tiling tokens reconstructs both texts byte for byte with consecutive indices and the right index shape; instantiated for the model's text diff with LCS and Myers unconditionally and Patience whenever it returns; unicode tokenizers relative to the external segmenter's Partition contract; END TO END (text_diff_total_reconstructs): for every algorithm, every clock and token ranges that tile the two texts, the text diff RETURNS, its whole-diff expansion has the index shape of the property (consecutive indices from 0 on each side) and reconstructs both texts byte for byte; text_diff_total_linesB: no hypothesis at all for the byte line tokenizer",
         "level_text": "Lean theorems composing C06 (tiling tokens), C02 (captured ops walk both token lists) and C13 (faithful expansion); TextDiff of the implementation compared with the model (token counts, ops, flags) and validated by reassembly.",
         "level_note": "unicode-segmentation / bstr segmenters are external parameters with contract Partition",
